@@ -29,7 +29,7 @@ EXTRA_LEGS = 'scool: every h5py call (about 190) of a 3-cell create_scool, every
 BOUNDS = {"quick": "3 streams; all 4 destinations; every fault point of 5 producers; single-cell file of 3 cells: every h5py call of create_scool (about 190), every invalid-record kind in every chunk of every cell, iterator failure before every chunk of every cell (each recognised cell must be complete; a cell finished earlier stays recognised)", "thorough": "6 streams; both storage modes for faults"}
 ASSUMPTIONS = ["faults are Python exceptions raised at the h5py API boundary; a killed process / torn HDF5 metadata flush is a property of libhdf5 and not explored",
                "what is left INSIDE the failed destination group is not judged"]
-EXPECT_CLASSES = {"*": ["invalid:idtype-uint32", "invalid:idtype-uint16", "scool:io-fault", "scool:invalid", "scool:iterfail", "invalid:bin-too-large", "invalid:negative-bin", "invalid:lower-triangle", "invalid:duplicate", "invalid:duplicate-other-value", "iterator-failure",
+EXPECT_CLASSES = {"*": ["invalid:stream-with-extra-column", "invalid:idtype-uint32", "invalid:idtype-uint16", "scool:io-fault", "scool:invalid", "scool:iterfail", "invalid:bin-too-large", "invalid:negative-bin", "invalid:lower-triangle", "invalid:duplicate", "invalid:duplicate-other-value", "iterator-failure",
                         "io-fault", "dest:new-file", "dest:new-group", "dest:empty-group", "dest:root", "fault-after-format-attr"]}
 
 BINS = alpha.table_bins(((2, 2), (2, 2)), "chr")
@@ -173,6 +173,10 @@ def units(tier):
     for idt in ("uint32", "uint16", "int32", "uint64"):
         for producer in ("ordered", "unordered"):
             yield {"leg": "invalid", "stream": 0 if producer == "ordered" else 1, "dest": "new-group", "producer": producer, "idtype": idt}
+    # the same invalid records in streams that carry a second, user-defined value column (columns=["count", "score"])
+    for producer in ("ordered", "unordered"):
+        for s_ in (0, 1):
+            yield {"leg": "invalid", "stream": s_, "dest": "new-group", "producer": producer, "extra_column": True}
     yield {"leg": "bigdup"}
     for s in range(ns if th else 2):
         for dest in DESTS:
@@ -239,6 +243,12 @@ def _invalid(R, unit, only):
                             R.cls("invalid:duplicate-apart")
                     rows = chunk[:pos] + [bad] + chunk[pos:]
                     chunks = [px(c, idt) for c in stream[:ci]] + [px(rows, idt)] + [px(c, idt) for c in stream[ci + 1:]]
+                    ckw = {}
+                    if unit.get("extra_column"):
+                        R.cls("invalid:stream-with-extra-column")
+                        for ch in chunks:
+                            ch["score"] = ch["count"] / 4.0 + 0.5
+                        ckw = {"columns": ["count", "score"], "dtypes": {"score": np.dtype(float)}}
                     if "idtype" in unit:
                         R.cls("invalid:idtype-" + idt.name)
                     R.order = (R.order[0], kk)
@@ -251,7 +261,7 @@ def _invalid(R, unit, only):
                     f, uri, mode, before = prepare(dest, wd)
                     raised = False
                     try:
-                        _create(uri, chunks, producer, mode, symm=symm, temp_dir=wd if producer == "unordered" else None)
+                        _create(uri, chunks, producer, mode, symm=symm, temp_dir=wd if producer == "unordered" else None, **ckw)
                     except Exception:
                         raised = True
                     after(R, inner, dest, f, uri, before, None, raised, must_raise=True)
